@@ -104,18 +104,22 @@ pub mod verif_actor {
     static TRACE: Mutex<Vec<(&'static str, &'static str)>> = Mutex::new(Vec::new());
     static HOOK: Mutex<Option<Hook>> = Mutex::new(None);
 
+    // (a closure may panic on purpose, to end the actor it runs in: the mutexes are then poisoned, which is ignored)
     pub fn on_message(actor: &'static str, kind: &'static str) {
-        TRACE.lock().unwrap().push((actor, kind));
-        if let Some(h) = HOOK.lock().unwrap().as_mut() {
+        TRACE
+            .lock()
+            .unwrap_or_else(|e| e.into_inner())
+            .push((actor, kind));
+        if let Some(h) = HOOK.lock().unwrap_or_else(|e| e.into_inner()).as_mut() {
             h(actor, kind);
         }
     }
 
     pub fn set_hook(hook: Option<Hook>) {
-        *HOOK.lock().unwrap() = hook;
+        *HOOK.lock().unwrap_or_else(|e| e.into_inner()) = hook;
     }
 
     pub fn take_trace() -> Vec<(&'static str, &'static str)> {
-        std::mem::take(&mut *TRACE.lock().unwrap())
+        std::mem::take(&mut *TRACE.lock().unwrap_or_else(|e| e.into_inner()))
     }
 }
